@@ -53,3 +53,24 @@ func TestF6b_MethodSentinel(t *testing.T) {
 	defer app.ReleaseCtx(c)
 	_ = app.Config().ErrorHandler(c, fiber.ErrBadRequest)
 }
+
+// F21: a pattern with more parameters than the context can hold was accepted at registration and
+// crashed the server on the first matching request (index out of range in getMatch).
+func TestF21_TooManyParametersIsRefusedAtRegistration(t *testing.T) {
+	pattern, path := "", ""
+	for i := 0; i < 31; i++ {
+		pattern += "/:p" + string(rune('a'+i%26)) + string(rune('a'+i/26))
+		path += "/v"
+	}
+	defer func() {
+		if r := recover(); r != nil {
+			if s, ok := r.(string); ok && len(s) > 0 {
+				return // refused with an explanatory panic at registration: fine
+			}
+			t.Fatalf("a request crashed the server: %v", r)
+		}
+	}()
+	app := fiber.New()
+	app.Get(pattern, func(c fiber.Ctx) error { return nil })
+	do(app, "GET", path)
+}
